@@ -9,3 +9,5 @@ import Resvg.Props.C03
 #print axioms Resvg.Props.C03.C03_neutralised
 #print axioms Resvg.Props.C03.C03_old_diverges
 #print axioms Resvg.Props.C03.C03_guards_present
+#print axioms Resvg.Props.C03.C03_recursive_pattern_rewrite_safe
+#print axioms Resvg.Props.C03.C03_inherited_search_breaks_rewrite
